@@ -335,11 +335,11 @@ fn c07_at_forms() {
       "timer_at"
     }
     4 => {
-      let _u = observable::interval_at(at, d(1000), sd).map(|n: usize| Val::c(n as i64)).take(1).actual_subscribe(probe);
+      let _u = observable::interval_at(at, Duration::from_millis(1000), sd).map(|n: usize| Val::c(n as i64)).take(1).actual_subscribe(probe);
       "interval_at"
     }
     _ => {
-      let _u = cat::cold(vec![Val::c(1)], Tm::Complete, 0).delay(d(off.max(0) as u64 * 1000), sd).actual_subscribe(probe);
+      let _u = cat::cold(vec![Val::c(1)], Tm::Complete, 0).delay(Duration::from_millis(off.max(0) as u64 * 1000), sd).actual_subscribe(probe);
       "delay"
     }
   };
